@@ -111,7 +111,7 @@ def rule_ignore_set(ctx):
                 samples=['prefixes %s ignore %s' % (prefixes, sorted(ignored))])
 
 
-def rule_accumulation(ctx):
+def rule_accumulation(ctx, rule='R17.5'):
     """R17.5: inside loops of reb_binary_diff the difference flags only accumulate (|= or constant true)."""
     tu = cfront.load_tu('binarydiff.c')
     n = 0
@@ -136,7 +136,7 @@ def rule_accumulation(ctx):
                     if fname == 'reb_particle_diff':
                         ok = node['opcode'] == '|=' or (lv in rhs) or rhs in ('0',)
                     if not ok and (in_loop or fname == 'reb_particle_diff'):
-                        ctx.report('R17.5', '%s:%s' % (fname, lv), 'src/binarydiff.c:%s %s' % (line_of(node), fname),
+                        ctx.report(rule, '%s:%s' % (fname, lv), 'src/binarydiff.c:%s %s' % (line_of(node), fname),
                                    '%s %s %s overwrites the difference flag instead of accumulating it: only the last element compared decides' % (lv, node['opcode'], rhs))
                     samples.append('src/binarydiff.c:%s %s %s %s' % (line_of(node), lv, node['opcode'], rhs[:40]))
             for c in node.get('inner', []) or []:
@@ -148,7 +148,7 @@ def rule_accumulation(ctx):
     loops = [x for x in cfront.body(fn).get('inner', []) if x.get('kind') == 'WhileStmt']
     n += 1
     if len(loops) < 2:
-        ctx.report('R17.5', 'diff:passes', 'src/binarydiff.c reb_binary_diff', 'the diff does not make both passes (fields of A in B, fields of B not in A)')
+        ctx.report(rule, 'diff:passes', 'src/binarydiff.c reb_binary_diff', 'the diff does not make both passes (fields of A in B, fields of B not in A)')
     # every member of struct reb_particle that is not a rewritten pointer is compared by reb_particle_diff
     recs = layout.record_layouts()
     reads = {y['name'] for y in walk(cfront.body(tu.func('reb_particle_diff'))) if y.get('kind') == 'MemberExpr'}
@@ -157,8 +157,8 @@ def rule_accumulation(ctx):
         if '*' in m.ctype:
             continue
         if m.name not in reads:
-            ctx.report('R17.5', 'particle_diff:' + m.name, 'src/binarydiff.c reb_particle_diff', 'member %s of struct reb_particle is not compared: two simulations differing only in it compare equal' % m.name)
-    ctx.covered('R17.5', 'difference flags accumulate; both diff passes exist; reb_particle_diff compares every non-pointer member', n, floor=20, samples=samples[:4])
+            ctx.report(rule, 'particle_diff:' + m.name, 'src/binarydiff.c reb_particle_diff', 'member %s of struct reb_particle is not compared: two simulations differing only in it compare equal' % m.name)
+    ctx.covered(rule, 'difference flags accumulate; both diff passes exist; reb_particle_diff compares every non-pointer member', n, floor=20, samples=samples[:4])
 
 
 def rule_deep_copy(ctx):
